@@ -30,6 +30,7 @@ type PropScope struct {
 	NotCovered []string
 	Technique  string
 	Statement  string
+	NoReplay   bool // roots cannot be driven from a model by the generic harness (e.g. need a constructed reader)
 }
 
 func isDecodeFuncSig(f *ssa.Function) bool {
@@ -172,7 +173,7 @@ func scopes() map[string]*PropScope {
 		NotCovered: []string{"reflection-based helpers are outside the subset"},
 	})
 
-	add(&PropScope{ID: "C15", Closure: true, Technique: "contract-based deductive verification: no-panic, allocation-bound and termination VCs over the reader functions, z3/cvc5",
+	add(&PropScope{ID: "C15", Closure: true, NoReplay: true, Technique: "contract-based deductive verification: no-panic, allocation-bound and termination VCs over the reader functions, z3/cvc5",
 		Roots: func(e *Engine) []*ssa.Function {
 			return e.selectFns(func(f *ssa.Function) bool {
 				return e.pkgName(f) == "pcapgo" && readerFiles.MatchString(e.fnFile(f)) && !strings.HasPrefix(f.Name(), "init")
